@@ -3518,6 +3518,7 @@ size_t ZSTD_generateSequences(ZSTD_CCtx* zc, ZSTD_Sequence* outSeqs,
     {
         const size_t ret = ZSTD_compress2(zc, dst, dstCapacity, src, srcSize);
         ZSTD_customFree(dst, ZSTD_defaultCMem);
+        zc->seqCollector.collectSequences = 0;   /* outSeqs belongs to the caller again */
         FORWARD_IF_ERROR(ret, "ZSTD_compress2 failed");
     }
     assert(zc->seqCollector.seqIndex <= ZSTD_sequenceBound(srcSize));
